@@ -5,7 +5,7 @@ import runlib as R
 ID = 'C12'
 COQ_TARGETS = ['Props/Properties_C12.vo']
 PROPS_FILES = ['Props/Properties_C12.v']
-THEOREMS = ['C12_combine', 'C12_documented_is_function', 'C12_inherit', 'C12_syntax', 'C12_checker_sound', 'C12_unfixed_refuted']
+THEOREMS = ['C12_combine', 'C12_documented_is_function', 'C12_inherit', 'C12_global_keys', 'C12_syntax', 'C12_checker_sound', 'C12_unfixed_refuted']
 ENGINES = [dict(name='filters', c_sources=['filters_h.c', 'filters_real.c'], extract='Extract/Extract_filters.v',
                 driver='filters_driver.ml', accepts=lambda c: c.startswith('cc '))]
 RULE = ('cases = (outcome of each of the 16 filters named in rcpt_cbs[], filterconf bytes at user / domain / global level incl. '
@@ -40,6 +40,9 @@ ASSUMPTIONS = [
 
 KFH = b'fail_hard_on_temp'
 KNE = b'nonexist_on_block'
+# the settings described in doc/man/filterconf.5 (probe keys: the checker compares what the reading filter gets with the man page)
+MANKEYS = [b'forcestarttls', b'whitelistauth', b'check_strict_rfc2822', b'fromdomain', b'reject_ipv6only', b'spfpolicy', b'nobounce',
+           b'usersize', b'block_SoberG', b'helovalid', b'block_wildcardns', b'smtp_space_bug']
 NF = 16
 # canonical ids (alphabetical); order of rcpt_cbs[] in the tree this was written for, used only to aim the generators
 ORDER = [2, 10, 11, 14, 12, 8, 7, 1, 0, 6, 13, 4, 5, 9, 15, 3]
@@ -144,8 +147,8 @@ def gen_cases(engine, rng, tier):
     cases = []
     for i in range(n):
         well = rng.random() < 0.7
-        key = rng.choice([KFH, KNE, KFH, KNE, b'foo', b'whitelistauth', b'helovalid', b'fail_hard_on_tem', b'fail_hard_on_tempx',
-                          b'a=b', b'f', b''] if not well else [KFH, KNE, b'foo', b'whitelistauth', b'helovalid'])
+        key = rng.choice([KFH, KNE, KFH, KNE, b'foo', b'fail_hard_on_tem', b'fail_hard_on_tempx', b'a=b', b'f', b''] + MANKEYS
+                         if not well else [KFH, KNE, KFH, KNE, b'foo'] + MANKEYS)
         keys = [KFH, KNE] + ([key] if key not in (KFH, KNE, b'') else [])
         u = _level(rng, keys, [0, 1, 2, 2, 2, 2], well)
         d = _level(rng, keys, [1, 2, 2, 2], well)
